@@ -43,9 +43,11 @@ int harness_main(void) {
   // the arrival counter crosses 2^32 during the second round explored here
   if (fmc_param("wrap", 0)) bar.counter = (4294967296ULL / (unsigned)count - 1) * (unsigned)count;
   fiber_t* f[8];
+  rt_pin_begin();
   fmc_begin();
   int nf = mainpart ? count - 1 : count;
-  for (int i = 0; i < nf; i++) f[i] = fiber_create(STK, body, (void*)(intptr_t)i);
+  for (int i = 0; i < nf; i++) f[i] = rt_create(i, STK, body, (void*)(intptr_t)i);
+  rt_pin_end();
   if (mainpart) body((void*)(intptr_t)(count - 1));
   else fmc_yield();
   for (int i = 0; i < nf; i++)
